@@ -222,9 +222,31 @@ def check(rep, tier, seed):
         if all(m % 2 == 1 for m in to):
             jobs.append((["view", "-p", ",".join(str((m - 1) // 2) for m in to)], text_spectrum(sh, t[2].split(","))))
             exp.append(c)
+    # inadmissible targets through the binary (larger on one axis - also when the element count is unchanged, as for a
+    # transposed shape -, another dimensionality with the same or another element count, zero): must be rejected
+    for _ in range(12 if tier == "quick" else 120):
+        d = rng.randrange(1, 4)
+        sh = [rng.randrange(2, 7) for _ in range(d)]
+        if d > 1 and len(set(sh)) == 1:
+            sh[0] += 1
+        vals = [str(rng.randrange(0, 30)) for _ in range(elements(sh))]
+        tgts = [sh[::-1], sorted(sh), sorted(sh, reverse=True), [elements(sh)], sh + [1], [1] + sh, [0] * d, [n + 1 for n in sh], [sh[0] + 1] + sh[1:], sh[:-1] + [0]]
+        if d >= 2:
+            tgts.append(sh[:-2] + [sh[-2] * sh[-1]])
+        for to in tgts:
+            if to != sh:
+                jobs.append((["view", "--project-shape", ",".join(map(str, to))], text_spectrum(sh, vals)))
+                exp.append("project %s %s %s" % (fmt(sh), ",".join(vals), fmt(to)))
     mo2 = run_model(exp)
     res = run_cli_many(jobs)
     for job, (rc, so, se), m, c in zip(jobs, res, mo2, exp):
+        if not m.startswith("OK"):
+            rep.count("project-cli-rejects", " ".join(job[0]) + " on " + c.split()[1], True)
+            if rc == 0 or so != b"" or rc == 101:
+                rep.fail(kind="cli-vs-model", cls="project:cli-error-expected", case=c, argv=["sfs"] + job[0], stdin=job[1].decode(),
+                         observed={"rc": rc, "stdout": so.decode(errors="replace")[:300]}, expected=m[:200],
+                         detail="an inadmissible projection target (the model gives %s) must be rejected with an error and no output" % m[:60])
+            continue
         case = {"argv": ["sfs"] + job[0], "stdin": job[1].decode()}
         rep.count("project-cli", str(case["argv"]) + case["stdin"], True)
         parsed = parse_text_spectrum(so)
